@@ -86,6 +86,7 @@ def step (s : S) (ws : List String) : S × String :=
      | some (d', o) => ({ s with d := d' }, o)
      | none => (s, "bad-op"))
   | ["x", _] => (s, "x")
+  | "rdx" :: _ => (s, "x")   -- oracle-only ops (held event loop, concurrent FUSE reads)
   | _ => (s, "bad-op")
 
 end Storrent.Drive.C10
